@@ -12,7 +12,8 @@ RULE = ("one case = (recorded program P, replayed program P') where P' is P or a
         "dropped / added / duplicated / reordered output call, changed final result, raise instead of return; P makes 1-14 calls "
         "per output alias (two-digit ordinals in a fifth of the cases) over 1-3 aliases, instance and static outputs, outputs "
         "with data handlers (preparing a container, an int digest or None), positional and keyword arguments, values from the "
-        "faithful domain; non-trivial = an edited pair or more than nine calls of an alias; distinct = distinct (P, P'); plus "
+        "faithful domain; every (recorded ending, replayed ending) pair over {return, ValueError, RecursionError, MemoryError}; "
+        "non-trivial = an edited pair or more than nine calls of an alias; distinct = distinct (P, P'); plus "
         "(implementation only, always runs) histories of operations that end in exceptions of ONE type whose instances carry "
         "different data and differ in whether they can be encoded (unencodable instance before / between / after ordinary ones, "
         "on the recording and the replaying side, a subclass, a new recorder in between, three cassettes)")
@@ -168,8 +169,35 @@ def generate(rng, tier):
                              aborting=True))
         runs.append(dict(kind="play", target=0, pf={"kind": "op", "op": Pp}, enabled=rng.random() < 0.5))
         cases.append(dict(draws=draws, runs=runs, cassette="memory", edit=kind, unshare=True))
+    cases += exhaustion_cases()
     cases += exc_history_cases()
     return cases
+
+
+def exhaustion_cases():
+    """Round 7: the operation's outcome entry exists for EVERY way the operation ends - a returned value or a raised exception
+    of any type, in particular the resource-exhaustion errors RecursionError / MemoryError (ordinary Exception subclasses that
+    an environment with a smaller stack / less memory raises on unchanged code) next to ValueError: every (recorded ending,
+    replayed ending) pair, one or two output calls before the end, three cassettes.  Deterministic; model + direct."""
+    ends = [None, "ValueError", "RecursionError", "MemoryError"]
+    out = []
+    k = 0
+    for a in ends:
+        for b_ in ends:
+            if a is None and b_ is None:
+                continue
+
+            def prog(ty):
+                stmts = [dict(k="out", cfg=ocfg("send", bool(k % 2), "none"), body={"k": "ret", "e": {"lit": pv.i(1)}},
+                              args=[{"lit": pv.i(7 + j)}], kwargs=[]) for j in range(1 + k % 2)]
+                term = {"k": "ret", "e": {"lit": pv.s("done")}} if ty is None else {"k": "raise", "ty": ty}
+                return assemble(stmts, term)
+            runs = [dict(kind="record", enabled=True, prm=PRM, op=prog(a), save_fails=False),
+                    dict(kind="play", target=0, pf={"kind": "op", "op": prog(b_)}, enabled=bool(k % 3 == 0)),
+                    dict(kind="play", target=0, pf={"kind": "op", "op": prog(a)}, enabled=False)]
+            out.append(dict(draws=[], runs=runs, cassette=["memory", "file", "s3"][k % 3], edit="ending:%s->%s" % (a, b_), unshare=True))
+            k += 1
+    return out
 
 
 # ---- the operation entry for a RAISED exception, over histories of exceptions of one type (implementation only) -------------
@@ -353,7 +381,10 @@ def explain(case, obs):  # noqa: F811
 
 def features(case):  # noqa: F811
     if case.get("kind") != "exc_history":
-        return _h_features(case)
+        fs = _h_features(case)
+        if str(case.get("edit", "")).startswith("ending:"):
+            fs.add("operation-" + case["edit"])
+        return fs
     fs = {"probe:exception-history", "cassette:" + case["cassette"], "exc-history-steps:%d" % len(case["steps"])}
     seen_bad = False
     for st in case["steps"]:
